@@ -91,6 +91,38 @@ FeatCondMean(c, x) ==
         phi(a) == IF a <= dx THEN VConst(x[a]) ELSE <<T1(1, EvalLnC(c.kL[a - dx], c.kn[a - dx], c.kb[a - dx], x))>>
     IN MkSeq(FDy(c), LAMBDA i : VPlus(VConst(c.b[1][i]), VLin(c.M[1][i], [a \in 1..nphi |-> phi(a)])))
 
+\* ------------------------------------------------------------------------
+\* C14 for the feature models: E_q[ ln p(y|x) ] for an arbitrary Gaussian q over z = (y, x), and
+\* E_{p(x)}[ ln p(y|x) ] at a given y.  With r = y - Mx x - Mk k(x) - b:
+\*   E[r'Lr] = E[(Az+a)'L(Az+a)] - 2 sum_i E[(Az+a)'L m_i k_i] + sum_ij m_i'L m_j E[k_i k_j]
+\* where the kernel expectations are masses / means of the product measures q x k_i (x k_j).
+\* ------------------------------------------------------------------------
+\* the feature model's kernels embedded in the joint space z = (y, x): zero blocks for y
+EmbedKernels(c) ==
+    LET dy == FDy(c) dx == FDx(c) IN
+    [c EXCEPT !.kL = MkSeq(FDk(c), LAMBDA i : Block(ZeroMat(dy, dy), ZeroMat(dy, dx), ZeroMat(dx, dy), c.kL[i])),
+              !.kn = MkSeq(FDk(c), LAMBDA i : VCat(ZeroVec(dy), c.kn[i]))]
+MxPart(c) == MkMat(FDy(c), FDx(c), LAMBDA a, d : c.M[1][a][d])
+MkCol(c, i) == MkVec(FDy(c), LAMBDA a : c.M[1][a][FDx(c) + i])
+LogConst(c) == TermM(FQ(-1, 2), LNZero, "one", 0, LN(0, 2 * FDy(c), FMul(c.dSig[1], c.dSig[1])))
+
+\* generic: residual map r = A z + a under the density q (component r of q); ck = the model with kernels living in z-space
+FeatExpLogGeneric(ck, c0, q, r, A, a) ==
+    LET L == ck.Lam[1] T == Truth(q, r) dk == FDk(ck)
+        mres == VAdd(MatVec(A, T.mu), a)
+        quad0 == FAdd(Trace(MatMul(L, MatMulT(MatMul(A, T.Sig), A))), Quad(mres, L, mres))
+        cross(i) == LET st == ProdStats(ck, q, r, <<i>>) IN
+                    T1(Quad(VAdd(MatVec(A, st.mu), a), L, MkCol(c0, i)), st.ln)
+        kk(i, j) == T1(FNeg(FHalfOf(Quad(MkCol(c0, i), L, MkCol(c0, j)))), ProdStats(ck, q, r, <<i, j>>).ln)
+    IN <<T1(FNeg(FHalfOf(quad0)), LNZero), LogConst(c0)>>
+         \o [i \in 1..dk |-> cross(i)]
+         \o [k \in 1..(dk * dk) |-> kk(((k - 1) \div dk) + 1, ((k - 1) % dk) + 1)]
+
+FeatIntLogCond(c, q, r) ==
+    FeatExpLogGeneric(EmbedKernels(c), c, q, r, HCat(Eye(FDy(c)), MNeg(MxPart(c))), VNeg(c.b[1]))
+FeatIntLogCondY(c, p, r, y) ==
+    FeatExpLogGeneric(c, c, p, r, MNeg(MxPart(c)), VSub(y, c.b[1]))
+
 \* independent closed forms of the kernel expectations (convolution of Gaussians), in (mu, Sigma) form
 RBFKernelExpectation(ctr, ls, m, S) ==
     LET d == Len(ctr)
